@@ -54,9 +54,19 @@ def _accumulation(loop: ast.For, acc: str):
     ifs, body = [], list(loop.body)
     while len(body) > 1:
         g = body[0]
-        if not (isinstance(g, ast.If) and not g.orelse and len(g.body) == 1 and isinstance(g.body[0], ast.Continue)) or _mentions(g.test, acc):
+        if not (isinstance(g, ast.If) and not g.orelse and len(g.body) == 1 and isinstance(g.body[0], ast.Continue)):
+            break
+        if _mentions(g.test, acc):
             return None
         ifs.append(ast.UnaryOp(op=ast.Not(), operand=g.test))
+        body = body[1:]
+    # `key = f(k)` bound just before `acc[key] = g(v)`: the key expression is evaluated first, as in the dict display
+    key_temp = None
+    if len(body) == 2 and isinstance(body[0], ast.Assign) and len(body[0].targets) == 1 and isinstance(body[0].targets[0], ast.Name) \
+            and not _mentions(body[0].value, acc) and isinstance(body[1], ast.Assign) and len(body[1].targets) == 1 \
+            and isinstance(body[1].targets[0], ast.Subscript) and isinstance(body[1].targets[0].slice, ast.Name) \
+            and body[1].targets[0].slice.id == body[0].targets[0].id and not _mentions(body[1].value, body[0].targets[0].id):
+        key_temp = body[0].value
         body = body[1:]
     if len(body) != 1:
         return None
@@ -65,6 +75,11 @@ def _accumulation(loop: ast.For, acc: str):
         ifs.append(st.test)
         st = st.body[0]
     gen = ast.comprehension(target=loop.target, iter=loop.iter, ifs=ifs, is_async=0)
+    if key_temp is not None:
+        if isinstance(st, ast.Assign) and isinstance(st.targets[0], ast.Subscript) and isinstance(st.targets[0].value, ast.Name) \
+                and st.targets[0].value.id == acc and not _mentions(st.value, acc):
+            return [gen], ("dict", key_temp, st.value)
+        return None
     if isinstance(st, ast.For):
         inner = _accumulation(st, acc)
         return None if inner is None else ([gen] + inner[0], inner[1])
@@ -79,6 +94,32 @@ def _accumulation(loop: ast.For, acc: str):
             and st.value.func.attr == "append" and isinstance(st.value.func.value, ast.Name) and st.value.func.value.id == acc \
             and len(st.value.args) == 1 and not st.value.keywords and not _mentions(st.value.args[0], acc):
         return [gen], ("list", st.value.args[0])
+    return None
+
+
+_FELL_THROUGH = object()
+
+
+def _search_loop(loop: ast.For):
+    """([filter conditions], returned expression) when the loop is a first-match search: guards `if g: continue`, then
+    `return e` or `if c: return e`; nothing else, no else clause, no break."""
+    if loop.orelse:
+        return None
+    ifs, body = [], list(loop.body)
+    while len(body) > 1:
+        g = body[0]
+        if not (isinstance(g, ast.If) and not g.orelse and len(g.body) == 1 and isinstance(g.body[0], ast.Continue)):
+            return None
+        ifs.append(ast.UnaryOp(op=ast.Not(), operand=g.test))
+        body = body[1:]
+    if len(body) != 1:
+        return None
+    st = body[0]
+    while isinstance(st, ast.If) and not st.orelse and len(st.body) == 1:
+        ifs.append(st.test)
+        st = st.body[0]
+    if isinstance(st, ast.Return) and st.value is not None and ifs:
+        return ifs, st.value
     return None
 
 
@@ -382,8 +423,26 @@ class StmtMixin:
 
     # ------------------------------------------------------------------ loops
     def s_For(self, node, env, path):
-        it = self.eval(node.iter, env, path)
         spec = self.loop_spec_for(node, env)
+        if spec is None:
+            srch = _search_loop(node)
+            if srch is not None:
+                # `for x in xs: [if g: continue]* if c: return e`  is  `next((e for x in xs if not g ... if c), <fall through>)`:
+                # the first element that passes is returned, none passing falls through - read through the same exact
+                # characterisation (a Skolem index with "no earlier one passes") as next() on a filtered generator
+                from .expr import FilteredGen
+                from .builtins_model import m_next
+                gen = ast.GeneratorExp(elt=srch[1], generators=[ast.comprehension(target=node.target, iter=node.iter, ifs=srch[0], is_async=0)])
+                ast.copy_location(gen, node)
+                ast.fix_missing_locations(gen)
+                fg = self.eval(gen, env, path)
+                if isinstance(fg, FilteredGen):
+                    r = m_next(self, path, [fg, _FELL_THROUGH], {})
+                    if r is not _FELL_THROUGH:
+                        raise _Return(r)
+                    self.exec_block(node.orelse, env, path)
+                    return
+        it = self.eval(node.iter, env, path)
         src = self.iter_seq(it, path, for_loop=True)
         n = src.length
         if isinstance(n, int) and spec is None:
